@@ -142,6 +142,17 @@ def gen(seed, tier):
             n = prod(sh)
             es = [rng.randrange(20) for _ in range(n)] if ty.endswith("p") else [rng.randint(0 if ty == "u8" else -9, 9) for _ in range(n)]
             out.append(f"ew1@{ty} s{hexs(op)} {arr(sh, es)}")
+    # long arrays (blocked / chunked maps must visit every element, in order)
+    for sh in ([33], [65], [100], [129], [5, 7], [9, 8], [3, 4, 3], [2, 3, 2, 3]):
+        n = prod(sh)
+        for op in CLOSURES:
+            out.append(f"{op} {arr(sh, [rng.randint(-9, 9) for _ in range(n)])}")
+        for op in UNARY:
+            if tier == "quick" and rng.random() < 0.6:
+                continue
+            ty = rng.choice(["f64p", "f32p"] if op == "spacing" else ["f64p", "f32p", "i32", "i64"])
+            es = [rng.randrange(20) for _ in range(n)] if ty.endswith("p") else [rng.randint(-9, 9) for _ in range(n)]
+            out.append(f"ew1@{ty} s{hexs(op)} {arr(sh, es)}")
     for op in ZUNARY:
         for sh in sh3[::2]:
             es = [rng.randint(-50, 50) for _ in range(prod(sh))]
